@@ -368,11 +368,15 @@ func genFeature(c *mc.Ctx) *geojson.Feature {
 	for i, k := 0, c.Choose(3); i < k; i++ {
 		f.Properties[[]string{"a", "", "b"}[i]] = jsonValue(c, 2)
 	}
-	switch c.Choose(3) {
+	switch c.Choose(5) {
 	case 1:
 		f.BBox = geojson.BBox{-1, -2.5, 3, 1e21}
 	case 2:
 		f.BBox = geojson.BBox{0, 1, 2, 3, 4, 5}
+	case 3:
+		f.BBox = geojson.BBox{0, 0, 0, 0} // the box of a feature at the origin: a value, not an absent member
+	case 4:
+		f.BBox = geojson.BBox{0, 0, 7, 0, 0, 7}
 	}
 	return f
 }
